@@ -265,7 +265,7 @@ def drive(case, decorated):
                 except BaseException as e:
                     env.trace.append(("final-close", type(e).__name__))
         del gens[:]
-        gc.collect()
+        gc.collect(1)
         if decorated:
             B.finish()
             A.finish()
@@ -274,7 +274,7 @@ def drive(case, decorated):
 
     try:
         contextvars.copy_context().run(go)
-        gc.collect()
+        gc.collect(1)
     finally:
         Logger._destinations = saved
         sys.unraisablehook = old_hook
@@ -368,4 +368,4 @@ def strategy():
     )
 
 
-FACETS = [Facet("drivers", strategy, check, classify, quick=1200, thorough=30000)]
+FACETS = [Facet("drivers", strategy, check, classify, quick=4000, thorough=80000)]
